@@ -303,6 +303,24 @@ pub fn cli_case(seed: u64, idx: usize, acc: &mut Acc) {
     }
 }
 
+/// Two detected inputs on one Translator: a first input of each format, then a multi-document stream that
+/// another format's trial would also accept (or read differently). The second input's documents must come
+/// out as they do on a fresh translator - same count, same bytes.
+pub fn after_detected_input(idx: usize, acc: &mut Acc) {
+    let streams: [&[u8]; 10] = [b"[1]\n[2]\n[3]\n", b"[\"a\"]\n[\"b\"]\n", b"[a]\n[b]\n", b"{\"a\": 1}\n{\"b\": 2}\n", b"1\n2\n3\n", b"[[1]]\n[[2]]\n", b"- 1\n---\n- 2\n", b"a: 1\n---\nb: 2\n", b"\x91\x01\x91\x02", b"{\"n\": -0}\n{\"n\": 1E+2}\n"];
+    let (wname, warm) = crate::run::WARM_UPS[idx % 6];
+    let stream = streams[(idx / 6) % 10];
+    let to = STREAMING[(idx / 60) % 3];
+    let mode = if (idx / 180) % 2 == 0 { Mode::Slice } else { Mode::Reader(Sched::Fixed(3)) };
+    let fresh = crate::run::run_mode(stream, &mode, None, to);
+    let got = crate::run::run_after(&[warm], stream, &mode, None, to);
+    acc.evals += 1;
+    acc.count("streams_after_a_detected_input_of_another_format");
+    if got.verdict.class() != fresh.verdict.class() || got.out != fresh.out {
+        acc.violation(Violation { sig: format!("to={}: after a detected {wname} input a stream is translated differently than on a fresh translator", to.name()), case: json!({"part": "after_detected", "index": idx}), observed: format!("stream [{}] {}: {} [{}]; fresh: {} [{}]", preview(stream, 40), mode.describe(), got.verdict.show(), preview(&got.out, 100), fresh.verdict.show(), preview(&fresh.out, 100)), expected: "the same documents in the same order".into() });
+    }
+}
+
 pub fn run(ctx: &Ctx) -> i32 {
     let n = ctx.size(40000, 1500000);
     let seed = ctx.seed;
@@ -331,7 +349,10 @@ pub fn run(ctx: &Ctx) -> i32 {
     let n_cli = ctx.size(400, 8000);
     let cli = crate::par::run(n_cli, 4, |i, acc| cli_case(seed, i, acc));
     acc.merge(cli);
-    let rule = format!("{} histories: N in {{0,1,2,3,4,5,17,300}} documents (scalars first, empty and large collections, strings padded so documents end at 8192/16384 +-2) distributed over 1-4 translate calls on one Translator, each call in its own source format (JSON/MessagePack/YAML, or TOML for one document), slice or reader under a schedule (one named-format reader in six also fails every 2nd-7th call with ErrorKind::Interrupted), explicit or detected, with every separator style the source allows (JSON none/blank/newlines; YAML '---', '--- value', '...'+'---', comments, blank lines, %YAML directives), targets JSON/MessagePack/YAML in turn; plus {} command-line invocations of the release binary over 2-4 input files in mixed formats (by extension or detected, one possibly on stdin - a pipe, or a regular file whose first documents were already consumed) compared with separate invocations per file; distinct non-trivial = distinct (inputs, target) with >= 2 documents", n, n_cli);
+    let mut acc = acc;
+    let ad = crate::par::run(360, 8, |i, acc| after_detected_input(i, acc));
+    acc.merge(ad);
+    let rule = format!("{} histories: N in {{0,1,2,3,4,5,17,300}} documents (scalars first, empty and large collections, strings padded so documents end at 8192/16384 +-2) distributed over 1-4 translate calls on one Translator, each call in its own source format (JSON/MessagePack/YAML, or TOML for one document), slice or reader under a schedule (one named-format reader in six also fails every 2nd-7th call with ErrorKind::Interrupted), explicit or detected, with every separator style the source allows (JSON none/blank/newlines; YAML '---', '--- value', '...'+'---', comments, blank lines, %YAML directives), targets JSON/MessagePack/YAML in turn; plus {} command-line invocations of the release binary over 2-4 input files in mixed formats (by extension or detected, one possibly on stdin - a pipe, or a regular file whose first documents were already consumed) compared with separate invocations per file; plus 360 pairs (a detected input of each format, then a detected multi-document stream that several formats' trials accept) whose second member must come out as on a fresh translator; distinct non-trivial = distinct (inputs, target) with >= 2 documents", n, n_cli);
     ev::finish(
         Finish {
             ctx,
@@ -349,6 +370,11 @@ pub fn run(ctx: &Ctx) -> i32 {
 
 pub fn replay(v: &Value) -> i32 {
     let c = &v["case"];
+    if c["part"].as_str() == Some("after_detected") {
+        let mut acc = Acc::default();
+        after_detected_input(c["index"].as_u64().unwrap_or(0) as usize, &mut acc);
+        return if acc.vio_count > 0 { println!("VIOLATION property=C03 replay=<this file> (reproduced): {}", acc.violations[0].observed); 1 } else { println!("not reproduced"); 0 };
+    }
     if c["part"].as_str() == Some("cli") {
         let mut acc = Acc::default();
         cli_case(c["seed"].as_u64().unwrap_or(0), c["index"].as_u64().unwrap_or(0) as usize, &mut acc);
